@@ -80,6 +80,12 @@ def _post(snap, res, graph, *, policy=None, max_conditions=None, **kwargs):
         C = set(j.conditions)
         canonical = (bool(j.separated) and str(j.left) < str(j.right) and isinstance(j.conditions, tuple)
                      and list(j.conditions) == sorted(set(j.conditions), key=str))
+        plain = all(type(v).__name__ == "Variable" for v in (j.left, j.right, *j.conditions))
+        if plain:
+            try:
+                canonical = canonical and bool(j.is_canonical)  # the library's own predicate must agree
+            except Exception:  # noqa: BLE001
+                canonical = False
         if not canonical:
             problems.append(f"judgement {j!r} is not in canonical form")
         if j.left == j.right or j.left in C or j.right in C or not C <= set(ref.V):
